@@ -82,8 +82,11 @@ func rootRadicands(r *rng, deg int, count int, tier string) []radicand {
 	// HUGE perfect powers and their neighbours, always present: (10^j)^deg ± 1 and m^deg ± 1 for m of
 	// 15–40 digits — the increment of the digit loop outgrows one, two, three machine words while
 	// the remainder stays tiny (a remainder/increment size shortcut must not end the root)
-	for _, j := range []int{10, 15, 19, 20, 25, 32, 40} {
+	for _, j := range []int{10, 15, 19, 20, 25, 32, 40, 160, 320} {
 		for _, m := range []*big.Int{pow(10, j), r.bigRand(j)} {
+			if j >= 160 && m.Cmp(pow(10, j)) == 0 {
+				continue // the very long ones: a random m only (increment of 8, 16 and more machine words)
+			}
 			p := new(big.Int).Exp(m, big.NewInt(int64(deg)), nil)
 			out = append(out, radicand{"hugepower+1", new(big.Int).Add(p, one), one, 2*j + 12, false})
 			if j%2 == 0 {
@@ -266,7 +269,13 @@ func emitRootLine(e *emitter, v, deg int, ctor string, rd radicand, k int, scale
 			// another Number of the same kind is created and used while this one is half read:
 			// Numbers must not share state
 			n.firstDigits(1 + rootLineCount%3*60)
-			other := newRoot(v, deg, "i64", big.NewInt(3+int64(rootLineCount%90)), big.NewInt(1))
+			// … of the same or of the OTHER degree (package-level or pooled scratch state shared
+			// between the square-root and the cube-root code)
+			otherDeg := deg
+			if rootLineCount%8 == 0 {
+				otherDeg = 5 - deg
+			}
+			other := newRoot(v, otherDeg, "i64", big.NewInt(3+int64(rootLineCount%90)), big.NewInt(1))
 			other.firstDigits(5 + rootLineCount%2*150)
 		}
 		ds, ended := n.firstDigits(k)
